@@ -205,13 +205,13 @@ func allKinds() []*wkind {
 		alpha: alphabet{targets: []target{tgtW}, keys: []keyDef{kStr("a"), kStr("b"), kStr("c"), kStr("zz")},
 			takes: []int{0}, reads: true, dels: true, vals: []valDef{val7, val1p5, valStrX, valNull, litIn, valH0},
 			defVals: []valDef{val7}, goOps: mapGo()},
-		depthQ: 3, depthT: 5})
+		depthQ: 3, depthT: 6})
 	ks = append(ks, &wkind{name: "*map[string]int", mk: func() interface{} { return ptr(map[string]int{"a": 1, "b": 2}) },
 		probes: []string{"a", "b", "c"},
 		alpha: alphabet{targets: []target{tgtW}, keys: []keyDef{kStr("a"), kStr("c")},
 			takes: []int{0}, reads: true, dels: true, vals: []valDef{val7, valNull}, defVals: []valDef{val7},
 			goOps: append(mapGo(), goOp{"*p=map{z:3}", "assign-whole", func(h reflect.Value) { *hostOf[map[string]int](h) = map[string]int{"z": 3} }})},
-		depthQ: 4, depthT: 5})
+		depthQ: 4, depthT: 6})
 	ks = append(ks, &wkind{name: "nil map[string]int", mk: func() interface{} { return ptr(map[string]int(nil)) }, byValue: true,
 		probes: []string{"a"},
 		alpha: alphabet{targets: []target{tgtW}, keys: []keyDef{kStr("a")}, takes: []int{0}, reads: true, dels: true,
@@ -244,7 +244,7 @@ func allKinds() []*wkind {
 			takes: []int{0}, reads: true, dels: true, vals: []valDef{val7, val1p5, valNull}, defVals: []valDef{val7},
 			goOps: []goOp{{"m[0]=9", "map-replace", func(h reflect.Value) { (*hostOf[map[int]int](h))[0] = 9 }},
 				{"delete(m,1)", "map-delete", func(h reflect.Value) { delete(*hostOf[map[int]int](h), 1) }}}},
-		depthQ: 3, depthT: 5})
+		depthQ: 3, depthT: 6})
 	ks = append(ks, &wkind{name: "map[float64]string", mk: func() interface{} { return ptr(map[float64]string{0: "z", 1.5: "a", 2: "b", -0.25: "n"}) }, byValue: true,
 		probes: []string{"0", "1.5", "2", "-0.25", "3"},
 		alpha: alphabet{targets: []target{tgtW}, keys: []keyDef{kIdx(0), kNum("1.5"), kStr("1.5"), kIdx(2), kNeg("-0.25"), kIdx(3)},
@@ -282,9 +282,9 @@ func allKinds() []*wkind {
 		}},
 	}
 	ks = append(ks, &wkind{name: "*[]int", mk: func() interface{} { return ptr(sliceWithSpare(3, 1, 2)) },
-		probes: []string{"0", "2", "3", "4", "length"}, alpha: intSliceAlpha(intSliceGo), depthQ: 3, depthT: 4})
+		probes: []string{"0", "2", "3", "4", "length"}, alpha: intSliceAlpha(intSliceGo), depthQ: 3, depthT: 5})
 	ks = append(ks, &wkind{name: "[]int-by-value", mk: func() interface{} { return ptr(sliceWithSpare(3, 1, 2)) }, byValue: true,
-		probes: []string{"0", "2", "3", "4", "length"}, alpha: intSliceAlpha(intSliceGo[:2]), depthQ: 3, depthT: 4})
+		probes: []string{"0", "2", "3", "4", "length"}, alpha: intSliceAlpha(intSliceGo[:2]), depthQ: 3, depthT: 5})
 	ks = append(ks, &wkind{name: "nil []int", mk: func() interface{} { return ptr([]int(nil)) }, byValue: true,
 		probes: []string{"0", "length"},
 		alpha: alphabet{targets: []target{tgtW}, keys: keysIdx(2), takes: []int{0}, reads: true, dels: true,
@@ -318,19 +318,19 @@ func allKinds() []*wkind {
 			takes: []int{0, 1}, reads: true, dels: true,
 			vals: []valDef{val7, litS, valH0, valWKey(kIdx(1))}, defVals: []valDef{litS},
 			pushVals: []valDef{litS2, valH0}, arrayOps: true, splices: stdSplices(&litS2), lens: []int{0, 1, 5}},
-		depthQ: 3, depthT: 4})
+		depthQ: 3, depthT: 5})
 	// the same with nested access (h1 = h0.In) and fewer ops
 	ks = append(ks, &wkind{name: "*[]struct/nested", mk: mkSS, probes: []string{"0", "A", "In", "X"},
 		alpha: alphabet{targets: []target{tgtW, tgtH0, tgtH1}, keys: []keyDef{kIdx(0), kIdx(1), kStr("In"), kStr("X")},
 			takes: []int{0, 1}, reads: true, dels: true,
 			vals: []valDef{val7, litS, litIn, valH0}, arrayOps: true, lens: []int{1, 5}},
-		depthQ: 3, depthT: 4})
+		depthQ: 3, depthT: 5})
 	// Go-side mutations interleaved
 	ks = append(ks, &wkind{name: "*[]struct/go", mk: mkSS, probes: []string{"0", "2", "3", "A"},
 		alpha: alphabet{targets: []target{tgtW, tgtH0}, keys: []keyDef{kIdx(0), kIdx(1), kStr("A")},
 			takes: []int{0}, reads: true, vals: []valDef{val7, litS, valH0}, pushVals: []valDef{litS2}, arrayOps: true, lens: []int{1},
 			goOps: structSliceGo},
-		depthQ: 3, depthT: 4})
+		depthQ: 3, depthT: 5})
 	ks = append(ks, &wkind{name: "[]struct-by-value", mk: mkSS, byValue: true, probes: []string{"0", "2", "3", "A"},
 		alpha: alphabet{targets: []target{tgtW, tgtH0}, keys: []keyDef{kIdx(0), kIdx(3), kStr("A")},
 			takes: []int{0}, reads: true, dels: true, vals: []valDef{val7, litS, valH0}, pushVals: []valDef{litS2}, arrayOps: true, lens: []int{1, 5},
@@ -403,7 +403,7 @@ func allKinds() []*wkind {
 		splices: stdSplices(&val7), lens: []int{0, 3, 4},
 		goOps: []goOp{{"a[0]=9", "assign-elem", func(h reflect.Value) { hostOf[[3]int](h)[0] = 9 }}}}
 	ks = append(ks, &wkind{name: "*[3]int", mk: func() interface{} { return &[3]int{3, 1, 2} },
-		probes: []string{"0", "2", "3", "4", "length"}, alpha: arrAlpha, depthQ: 3, depthT: 4})
+		probes: []string{"0", "2", "3", "4", "length"}, alpha: arrAlpha, depthQ: 3, depthT: 5})
 	ks = append(ks, &wkind{name: "[3]int-by-value", mk: func() interface{} { return &[3]int{3, 1, 2} }, byValue: true,
 		probes: []string{"0", "2", "3", "4", "length"}, alpha: arrAlpha, depthQ: 2, depthT: 3})
 	ks = append(ks, &wkind{name: "*[2]struct", mk: func() interface{} { return &[2]S{{3, "c", In{30}}, {1, "a", In{10}}} },
@@ -412,7 +412,7 @@ func allKinds() []*wkind {
 			takes: []int{0, 1}, reads: true, dels: true, vals: []valDef{val7, litS, valH0, valH1, valNull}, defVals: []valDef{litS},
 			pushVals: []valDef{litS2}, arrayOps: true, splices: []spliceDef{{0, 1, nil}}, lens: []int{2},
 			goOps: []goOp{{"a[0]=S{9}", "assign-elem", func(h reflect.Value) { hostOf[[2]S](h)[0] = S{9, "n", In{9}} }}}},
-		depthQ: 3, depthT: 4})
+		depthQ: 3, depthT: 5})
 
 	// ---- []interface{} / map[string]interface{} ----------------------------------------------------
 	mkIS := func() interface{} {
